@@ -109,9 +109,41 @@ theorem sendErrorPdu_sends (c : Conn) (n : Net) (enc : List Nat) (code : Nat) (t
     sendErrorPdu c n enc code text = sendPdu c n (errorPduBytes c.version enc code text) :=
   P.sendErrorPdu_sends c n enc code text h
 
+/-- **`tr_send_all` when the write calls take time** (a congested link: each call may block for any
+    time before it accepts part of the data or fails; the loop hands the transport the time left
+    until its deadline, negative once the deadline has passed, and never gives up by itself).
+    Whatever the script of outcomes and durations: a return value ≥ 0 — what `rtr_send_pdu` takes
+    for success — means that every byte of the PDU was accepted by the transport, in order, and the
+    value is the length; a negative value means a call failed and what was accepted before is a
+    proper prefix. -/
+theorem sendAll_deadline_complete (q : List SendStep) (now : Int) (bytes : List Nat) (timeout : Int)
+    (h : 0 ≤ (sendAllT q now bytes timeout).rc) :
+    (sendAllT q now bytes timeout).handed = bytes ∧ (sendAllT q now bytes timeout).rc = (bytes.length : Int) := by
+  have := (P.sendAllTLoop_spec (now + timeout) (bytes.length + 1) q now bytes 0 [] [] (Nat.lt_succ_self _)).1 h
+  simpa [sendAllT] using this
+
+theorem sendAll_deadline_failure (q : List SendStep) (now : Int) (bytes : List Nat) (timeout : Int)
+    (h : (sendAllT q now bytes timeout).rc < 0) :
+    ∃ k, k < bytes.length ∧ (sendAllT q now bytes timeout).handed = bytes.take k := by
+  have := (P.sendAllTLoop_spec (now + timeout) (bytes.length + 1) q now bytes 0 [] [] (Nat.lt_succ_self _)).2 h
+  simpa [sendAllT] using this
+
+/-- when no time passes inside the write calls this loop returns what `sendAll` (the loop inside the
+    protocol model, theorems above) returns on the same outcomes -/
+theorem sendAll_deadline_conservative (n : Net) (bytes : List Nat) (timeout : Int) :
+    (sendAllT (P.stepsOf n.sendQ) n.now bytes timeout).rc = (sendAll n bytes).1 :=
+  P.sendAllT_conservative n bytes timeout
+
 /-! ## non-vacuity -/
 
 section Examples
+
+/-- a Serial Query on a stalled link: the first write takes 61 s (one more than the 60 s the call was
+    given) and accepts 5 bytes; the loop goes on (time left: -1) and the PDU is handed over completely -/
+example : (sendAllT [⟨61, .part 5⟩] 1000 (serialQueryBytes 1 48879 5) 60).rc = 12 ∧
+    (sendAllT [⟨61, .part 5⟩] 1000 (serialQueryBytes 1 48879 5) 60).now = 1061 ∧
+    (sendAllT [⟨61, .part 5⟩] 1000 (serialQueryBytes 1 48879 5) 60).lines =
+      ["V 12 60 -> 5 0101beef00", "V 7 -1 -> 7 00000c00000005"] := by decide
 
 /-- an Error Report echoing an 8-byte header with a 3-byte text -/
 example : errorPduBytes 1 [1, 4, 0, 0, 0, 0, 0, 21] 0 [65, 66, 0] =
